@@ -169,6 +169,7 @@ const prelude = `(set-option :produce-models true)
 (declare-datatypes ((Iface 0)) (((mkIface (itag Int) (ival Int)))))
 (declare-sort F64 0)
 (declare-sort C128 0)
+(declare-sort Opaque 0)
 (declare-fun strbyte (Int Int) Int)
 (declare-fun strid (Str) Int)
 (define-fun wrapS64 ((x Int)) Int (- (mod (+ x 9223372036854775808) 18446744073709551616) 9223372036854775808))
